@@ -383,6 +383,40 @@ fn one_case(ctx: &Ctx, case: u64, l: &mut Local) {
         structural(&mut j, "leading-dot", Some(format!(".{}", t.parts.jwt)), &fixed);
     }
     structural(&mut j, "signature-padded", Some(format!("{}.{}.{}=", segs[0], segs[1], segs[2])), &fixed);
+    // the genuine signature in another encoding (DER for ECDSA, standard base64, hex, double base64url)
+    if let Ok(raw) = crate::model::b64d(&segs[2]) {
+        use base64::Engine;
+        let mut variants: Vec<(&str, String)> = vec![
+            ("std-base64", base64::engine::general_purpose::STANDARD.encode(&raw)),
+            ("std-base64-nopad", base64::engine::general_purpose::STANDARD_NO_PAD.encode(&raw)),
+            ("url-padded", base64::engine::general_purpose::URL_SAFE.encode(&raw)),
+            ("hex", raw.iter().map(|b| format!("{b:02x}")).collect()),
+            ("double-b64url", crate::model::b64e(segs[2].as_bytes())),
+        ];
+        if raw.len() == 64 {
+            // ASN.1 DER SEQUENCE { INTEGER r, INTEGER s }
+            let int = |x: &[u8]| -> Vec<u8> {
+                let mut v: Vec<u8> = x.iter().copied().skip_while(|b| *b == 0).collect();
+                if v.is_empty() {
+                    v.push(0);
+                }
+                if v[0] & 0x80 != 0 {
+                    v.insert(0, 0);
+                }
+                let mut out = vec![0x02, v.len() as u8];
+                out.extend(v);
+                out
+            };
+            let mut body = int(&raw[..32]);
+            body.extend(int(&raw[32..]));
+            let mut der = vec![0x30, body.len() as u8];
+            der.extend(body);
+            variants.push(("der", crate::model::b64e(&der)));
+        }
+        for (name, sig) in variants {
+            structural(&mut j, &format!("signature-transcoded-{name}"), Some(format!("{}.{}.{}", segs[0], segs[1], sig)), &fixed);
+        }
+    }
     structural(&mut j, "signature-zeroed", Some(format!("{}.{}.{}", segs[0], segs[1], "A".repeat(segs[2].len()))), &fixed);
     // alg rewrites (header re-encoded; signature kept, emptied, or recomputed by the attacker)
     for (name, algv) in [("none", json!("none")), ("None", json!("None")), ("NONE", json!("NONE")), ("empty", json!("")), ("number", json!(5)), ("null", Value::Null), ("ES384", json!("ES384")), ("RS256", json!("RS256")), ("unknown", json!("XX999")),
@@ -421,6 +455,33 @@ fn one_case(ctx: &Ctx, case: u64, l: &mut Local) {
             }
         }
     }
+    // ---- JSON only: a genuine member followed by '~' and a well-formed disclosure (a parser that
+    // funnels the JSON members through the compact splitter would cut there)
+    if fmt == Fmt::Json {
+        let extra = t.parts.disclosures.first().cloned().unwrap_or_else(|| crate::model::b64e(b"[\"s\",\"k\",1]"));
+        for (mi, mname) in ["protected", "payload", "signature"].iter().enumerate() {
+            for tail in [format!("~{extra}"), format!("~{extra}~"), "~".to_string()] {
+                let mut mem = segs.clone();
+                mem[mi] = format!("{}{}", mem[mi], tail);
+                let mut ds = t.parts.disclosures.clone();
+                if !ds.is_empty() && tail.len() > 1 {
+                    ds.remove(0);
+                }
+                let mut m = serde_json::Map::new();
+                m.insert("protected".into(), json!(mem[0]));
+                m.insert("payload".into(), json!(mem[1]));
+                m.insert("signature".into(), json!(mem[2]));
+                m.insert("disclosures".into(), json!(ds));
+                if let Some(k) = &t.parts.kb {
+                    m.insert("kb_jwt".into(), json!(k));
+                }
+                let v = api::verify(&Value::Object(m).to_string(), &fixed, t.kb.as_ref().map(|(a, n)| (a.as_str(), n.as_str())), fmt);
+                j.l.count("fault.structural.kind.json-member-with-tilde-tail");
+                j.l.distinct(crate::rng::mix(case ^ gen::hash_str(mname) ^ gen::hash_str(&tail)));
+                j.reject("structural", &format!("{mname} member followed by ~disclosure ({} JSON)", alg.name()), Some(v), || json!({"member": mname, "tail": tail}));
+            }
+        }
+    }
     // ---- header members other than alg: the resolver must be handed the token's OWN header
     if alg != Alg::HS256 || true {
         let payload: Value = t.parts.payload().unwrap_or(Value::Null);
@@ -439,6 +500,27 @@ fn one_case(ctx: &Ctx, case: u64, l: &mut Local) {
                     j.l.violate(Violation { subcheck: "resolver-invocation".into(), class: "header members".into(), observed: "resolver was not handed the token's own header (kid / typ differ)".into(), case, detail: json!({"token_header": {"alg": alg.name(), "typ": "sd+jwt", "kid": "k0"}, "resolver_saw": seen}) });
                 } else {
                     j.l.count("control.by-kid.accepted");
+                }
+            }
+            // kid values that look like key documents of OTHER issuers: the resolver is still asked
+            // for the token's own iss, and a token signed by the other issuer's key is rejected
+            for kid in [format!("{}.attacker.example#key-1", t.iss), format!("{}#key-1", t.iss), "#key-1".to_string(), format!("{}x", t.iss), "https://issuer.example/B#k".to_string()] {
+                let mut q = t.parts.clone();
+                q.jwt = mk(json!({"alg": alg.name(), "kid": kid}), 1);
+                let v = verify_parts(&t, &q, &Resolver::ByIss(alg));
+                if let Some(v) = &v {
+                    if let Some(c) = v.resolver_calls.first() {
+                        if c.iss != t.iss {
+                            j.l.violate(Violation { subcheck: "resolver-invocation".into(), class: "kid naming another key document".into(), observed: "resolver asked for an iss other than the token's own".into(), case, detail: json!({"token_iss": t.iss, "kid": kid, "resolver_was_asked_for": c.iss}) });
+                        }
+                    }
+                }
+                j.l.count("fault.structural.kind.kid-document-of-other-issuer");
+                // ByIss maps the token's own iss (".../A" or a variant) to some key; the token is signed by key 1:
+                // accepted only if the resolver's answer for the token's OWN iss is key 1
+                let own_is_key1 = !t.iss.ends_with("/A");
+                if !own_is_key1 {
+                    j.reject("structural", &format!("signed by issuer B's key, kid names B's document, iss says A ({} {})", alg.name(), fmt.name()), v, || json!({"kid": kid}));
                 }
             }
             // signed by key 0 but naming kid k1 (-> key 1): must be rejected
